@@ -31,13 +31,13 @@ METHODS = ["getBlockWithTxHashes", "getBlockWithTxs", "getBlockWithReceipts", "g
            "getTransactionByBlockIdAndIndex", "getStorageAt", "getNonce", "getClassHashAt", "getClassAt", "getClass"]
 BY_HASH = ["getTransactionByHash", "getTransactionReceipt", "getTransactionStatus"]
 ERRORS = ["BlockNotFound", "TxnHashNotFound", "InvalidTxnIndex", "ContractNotFound", "ClassHashNotFound",
-          "InvalidParams", "PageSizeTooBig", "TooManyKeys"]
+          "InvalidParams", "PageSizeTooBig", "TooManyKeys", "InvalidToken"]
 KNOWN_L1 = "rpc2:getEvents:"
 
 
 def shape_counts(behaviours):
     """How many generated behaviours reach the interesting regions (measured, for the evidence)."""
-    deep = stale = l1_above_ev = pc_ranges = fallback_reads = revert_with_pc = 0
+    deep = stale = l1_above_ev = pc_ranges = fallback_reads = revert_with_pc = tip_from = limits = 0
     for b in behaviours:
         f_deep = f_stale = f_l1 = f_pc = f_fb = f_rev = False
         for s in b:
@@ -51,6 +51,10 @@ def shape_counts(behaviours):
                     f_l1 = True
                 if a["to"]["k"] == "pre_confirmed" and view and any(p["k"] > 0 for p in view):
                     f_pc = True
+                if a["from"]["k"] == "pre_confirmed" and a["to"]["k"] == "pre_confirmed" and len(view) >= 2:
+                    tip_from += 1
+                if a["chunk"] == 10240 or a["f"]["huge"] == 1:
+                    limits += 1
             if (a.get("id") or {}).get("k") == "pre_confirmed" and not view and h >= 0:
                 f_fb = True
             f_rev = f_rev or bool(a["name"] == "Revert" and s["pcs"])
@@ -64,7 +68,9 @@ def shape_counts(behaviours):
             "behaviours_with_l1_accepted_event_range_above_height": l1_above_ev,
             "behaviours_with_event_range_into_nonempty_view": pc_ranges,
             "behaviours_reading_pre_confirmed_fallback": fallback_reads,
-            "behaviours_reverting_under_stored_preconfirmed": revert_with_pc}
+            "behaviours_reverting_under_stored_preconfirmed": revert_with_pc,
+            "event_queries_from_pre_confirmed_tag_with_view_depth_2": tip_from,
+            "event_queries_exactly_at_a_limit": limits}
 
 
 def run(ctx):
@@ -84,13 +90,8 @@ def run(ctx):
                         ("ids", "getEvents ranges by every identifier kind, reverts, stale storage, L1 head"),
                         ("tokens", "single pages with any (block, processed) token"),
                         ("reads", "read methods at pre_confirmed / by-hash lookups with pre-confirmed data")):
-        cov = thorough and part in ("ids", "reads")
-        r = ctx.tlc_check(FAMILY, "MCRpcEvents.tla", "RpcEvents_%s_%s.cfg" % (part, tier), timeout=3000 if thorough else 900,
-                          coverage=cov, label="RpcEvents %s: %s (%s)" % (part, label, tier))
-        if cov:
-            vlib.require_actions_covered(r, ignore=("Next", "Init", "Read", "ErrorReads", "EventReads", "TokenReads",
-                                                    "GetEventsPage", "GetEventsAll", "MethodReads", "IdRead", "TxRead",
-                                                    "StateRead"))
+        ctx.tlc_check(FAMILY, "MCRpcEvents.tla", "RpcEvents_%s_%s.cfg" % (part, tier), timeout=3000 if thorough else 900,
+                      label="RpcEvents %s: %s (%s)" % (part, label, tier))
     ctx.tlc_check(FAMILY, "MCRpcEvents.tla", "RpcEvents_ids_fixed.cfg", timeout=900,
                   label="RpcEvents repaired (l1_accepted clamped in getEvents): strict property")
     # the strict property must FAIL on the as-is model: the exception is not vacuous
@@ -99,6 +100,16 @@ def run(ctx):
     if r["ok"] or r["violated"] != "EventsAnswerFromChainStrict":
         raise vlib.Broken("the as-is model no longer deviates from the strict property (%s): the FixL1EventsClamp "
                           "switch is stale" % r["violated"])
+    # vacuity: the antecedents of the properties are reachable in the exhaustive configurations (TLC -coverage runs
+    # out of memory on the recursive operators, so reachability is shown by invariants that must be violated)
+    witnesses = [("paging", "WitnessNoPagingAcrossHead"), ("receipt", "WitnessNoReceiptBelowTip")]
+    if thorough:
+        witnesses.append(("stale", "WitnessNoStaleOverlayRead"))
+    for w, inv in witnesses:
+        r = ctx.tlc_check(FAMILY, "MCRpcEvents.tla", "RpcEvents_witness_%s.cfg" % w, timeout=900, expect_violation=True,
+                          label="witness %s (must be violated)" % inv)
+        if r["ok"] or r["violated"] != inv:
+            raise vlib.Broken("vacuity: witness %s is not reachable (%s)" % (inv, r["violated"]))
 
     # 2. binding: behaviours from TLC -simulate, replayed on the real stack
     nruns = 8 if thorough else 2
@@ -127,6 +138,8 @@ def run(ctx):
         weak = [k for k in ("behaviours_with_view_depth_2", "behaviours_reading_with_stale_storage",
                             "behaviours_with_event_range_into_nonempty_view", "behaviours_reading_pre_confirmed_fallback")
                 if shapes[k] == 0]
+        weak += [k for k in ("event_queries_from_pre_confirmed_tag_with_view_depth_2", "event_queries_exactly_at_a_limit")
+                 if shapes[k] < 3]
         if low or silent or unseen or weak:
             raise vlib.Broken("replay is vacuous: counters below their floor %s / methods never answered from "
                               "pre-confirmed data %s / errors never demanded %s / regions never reached %s"
